@@ -249,6 +249,8 @@ pub struct Gen {
     /// (task, id)
     pub owned: Vec<(u8, u32)>,
     pub call_steps: Vec<u32>,
+    /// every key used so far in this run, per family (instances may be dead by now)
+    pub keys_seen: Vec<(usize, Vec<u8>)>,
 }
 
 impl Default for Gen {
@@ -259,7 +261,7 @@ impl Default for Gen {
 
 impl Gen {
     pub fn new() -> Gen {
-        Gen { next_id: 1, owned: Vec::new(), call_steps: Vec::new() }
+        Gen { next_id: 1, owned: Vec::new(), call_steps: Vec::new(), keys_seen: Vec::new() }
     }
 
     fn pick_inst(&self, w: &World, rng: &mut Prng, task: u8, share: u64, pred: impl Fn(&crate::world::Inst) -> bool) -> Option<u32> {
@@ -295,12 +297,30 @@ impl Gen {
             Role::Both
         };
         let klen = *rng.pick(&fam.key_lens);
-        // sometimes reuse the key of a live instance of the same family
+        // sometimes a key related to one used earlier in this run (alive or not): the same key, its cyclic
+        // extension or truncation to another accepted length, a shared prefix, a one-byte difference.
+        // State keyed too weakly by the key (a cache, a memo) shows on related keys, not on random ones.
         let mut key = None;
         if rng.below(4) < plan.key_reuse {
-            let same: Vec<&crate::world::Inst> = w.insts.values().filter(|i| i.fam == f).collect();
+            let same: Vec<&Vec<u8>> = self.keys_seen.iter().filter(|(ff, _)| *ff == f).map(|(_, k)| k).collect();
             if !same.is_empty() {
-                key = Some(rng.pick(&same).key.clone());
+                let k0 = (*rng.pick(&same)).clone();
+                key = Some(match rng.below(10) {
+                    0..=3 => k0,
+                    4..=6 => (0..klen).map(|i| k0[i % k0.len()]).collect(),
+                    7 => {
+                        let mut k = rng.bytes(klen);
+                        let n = klen.min(k0.len());
+                        k[..n].copy_from_slice(&k0[..n]);
+                        k
+                    }
+                    _ => {
+                        let mut k = k0;
+                        let i = rng.below(k.len() as u64) as usize;
+                        k[i] ^= 1 << rng.below(8);
+                        k
+                    }
+                });
             }
         }
         let key = key.unwrap_or_else(|| match rng.below(24) {
@@ -308,6 +328,7 @@ impl Gen {
             1 => vec![0xffu8; klen],
             _ => rng.bytes(klen),
         });
+        self.keys_seen.push((f, key.clone()));
         let fixed = key.len() == fam.key_size && rng.chance(1, 2);
         let id = self.next_id;
         self.next_id += 1;
